@@ -22,6 +22,8 @@ fn kind_of(k: u8) -> ErrorKind {
     match k {
         0 => ErrorKind::Other,
         1 => ErrorKind::ConnectionReset,
+        // what a reader over a cut compressed / framed stream reports: a failure, not the end of input
+        3 => ErrorKind::UnexpectedEof,
         _ => ErrorKind::WriteZero,
     }
 }
@@ -58,6 +60,11 @@ pub fn documents() -> Vec<String> {
         "a: 1\n...\n# trailing comment that is long\n".into(),
         "a: 1\n# comment\n\n\n".into(),
         "k: |\n  text\n# c\n".into(),
+        // a byte-order mark in front (the decoding layer must not turn a cut character into U+FFFD)
+        "\u{feff}a: €\n".into(),
+        "\u{feff}- é\n- 😀\n".into(),
+        // a stream whose first document fails the type of the target: the iterator skips to the next document
+        "a: 1\nb: 2\nc: 3\nd: 4\n---\n- 5\n".into(),
         "a: &x 1\nb: *x\n".into(),
         "s: &m {u: 1}\nt:\n  <<: *m\n".into(),
         "a: 1 # é\n".into(),
@@ -376,7 +383,7 @@ pub fn run(ctx: &Ctx) -> i32 {
         for chunk in [1usize, 3, 4096] {
             let reads = n.div_ceil(chunk) + 2;
             for entry in 0..3u8 {
-                for kind in 0..2u8 {
+                for kind in [0u8, 1, 3] {
                     for k in 0..=reads {
                         cases.push(Case::Read { text: text.clone(), chunk, fault: Fault::AtRead(k), kind, entry });
                     }
@@ -428,7 +435,7 @@ pub fn run(ctx: &Ctx) -> i32 {
         level: "fault_enumeration",
         rule: "for every document of the corpus x chunking {1,3,whole} x entry point: the k-th read fails for EVERY k, a read fails after EVERY byte offset, the stream ends inside EVERY multi-byte character; input caps {0,1,n-2..n+2}; endless readers; for every value of the C13 corpus the k-th write fails for EVERY k. Non-trivial = the fault point was actually reached (the reader/writer really returned the error)".into(),
         exhaustive: true,
-        bounds: json!({"documents": docs.len(), "chunkings": [1, 3, 4096], "error_kinds": ["Other", "ConnectionReset", "WriteZero"], "entry_points": ENTRIES}),
+        bounds: json!({"documents": docs.len(), "chunkings": [1, 3, 4096], "error_kinds": ["Other", "ConnectionReset", "UnexpectedEof", "WriteZero"], "entry_points": ENTRIES}),
         assumptions: vec!["the instrumented reader keeps failing after the first injected error (a hard, non-Interrupted error)".into(), "buffering allowance for the cap: 32 KiB".into()],
     };
     finish(ctx, meta, acc)
